@@ -1198,7 +1198,8 @@ class UpdateHist(Component):
         out = []
         for _ in range(self.budget(tier, boost, 250, 8000)):
             pads = rng.choice([[], [rng.choice([0, 4, 16, 40, 200])], [rng.choice([0, 8, 30]), rng.choice([0, 50])], [5, 5, 500]])
-            meta, frames = metagen.small_file(rng, pads)
+            # one case in eight has more metadata than one 8 KiB read buffer (cover art, long comments)
+            meta, frames = metagen.small_file(rng, pads, big=rng.choice([8100, 8192, 9000, 20000]) if rng.random() < 0.125 else 0)
             slack = (pads[0] if pads else rng.choice([0, 10, 40]))
             edits = '|'.join(metagen.edit_script(rng, slack) for _ in range(rng.choice([1, 1, 2, 4])))
             out.append(f'update file={(meta + frames).hex()} edits={edits} frames={len(frames)}')
